@@ -154,8 +154,20 @@ def safe_run(prop, case, drv):
         r.mismatch = 'driver: ' + str(e)[:300]
         r.detail = {'driver_error': str(e)[:2000]}
         return r
-    except Exception:
-        raise HarnessError('harness failure on case %s\n%s' % (json.dumps(case, default=str)[:1500], traceback.format_exc()))
+    except Exception as e:
+        if type(e).__name__ == 'UnreadableOutcome':
+            # a result whose outcomes are not built from the input's symbols is a wrong result, not a harness problem
+            r = Result()
+            r.oracle_fail = 'the result contains an outcome that is not made of the given symbols: %s' % str(e)[:200]
+            r.site = getattr(prop, 'id', '') + '.unreadable-outcome'
+            return r
+        # The harness could not interpret what the implementation returned (it never fails this way on the unchanged
+        # tree: every property runs thousands of cases per tier there). The correspondence is broken for this case.
+        r = Result()
+        r.mismatch = 'the harness could not interpret the implementation\'s result: %s: %s' % (type(e).__name__, str(e)[:200])
+        r.detail = {'traceback': traceback.format_exc()[-1500:]}
+        r.site = getattr(prop, 'id', '') + '.uninterpretable'
+        return r
 
 
 def search_failing_input(prop, case, drv, budget=300):
